@@ -7,11 +7,21 @@
    Proved for every token list: the pass terminates; it deletes white space
    only (every other character survives, in order); and where no markup
    vanished (no action token) it deletes nothing at all, so a line that was
-   blank in the source stays.  Not proved: that exactly the lines emptied by
+   blank in the source stays.  What the pass does to the text, exactly
+   (C05_only_blank_lines_deleted): the text changes by deletions of a whole
+   blank line (white space, then its line break) standing at the beginning of
+   the text or directly behind a line break, or of trailing white space
+   behind the last line break; nothing else.  Hence the words of the text are
+   the same before and after -- none glued to its neighbour, none split
+   (C05_words_neither_glued_nor_split) -- and on the list of lines only blank
+   lines disappear: the lines that hold a word are the same, in order, and
+   the number of lines does not grow, so no paragraph break is invented
+   (C05_no_line_invented).  Not proved: that exactly the lines emptied by
    markup are removed and that the expander leaves an action token for every
    construct that vanishes; decided on the C05 stream by the paragraph
    oracle of harness/props/c05.py and the correspondence run. *)
-From YV Require Import PyBase CharTables Token Rpal RpalProofs.
+From Coq Require Import Relations.
+From YV Require Import PyBase CharTables Token Rpal RpalProofs RpalLines.
 Open Scope Z_scope.
 
 Theorem C05_pass_total : forall is_space tokens,
@@ -33,6 +43,45 @@ Theorem C05_source_blank_lines_stay : forall is_space tokens,
   remove_pure_action_lines is_space tokens = Ok (filter keep_out tokens).
 Proof. exact rpal_no_action. Qed.
 Print Assumptions C05_source_blank_lines_stay.
+
+Theorem C05_only_blank_lines_deleted : forall is_space tokens r,
+  Forall E0 tokens ->
+  remove_pure_action_lines is_space tokens = Ok r ->
+  dels is_space (flatt tokens) (flatt r).
+Proof. exact rpal_lines. Qed.
+Print Assumptions C05_only_blank_lines_deleted.
+
+Theorem C05_words_neither_glued_nor_split : forall is_space,
+  is_space c_nl = true ->
+  forall tokens r,
+  Forall E0 tokens ->
+  remove_pure_action_lines is_space tokens = Ok r ->
+  words is_space (flatt r) = words is_space (flatt tokens).
+Proof. exact rpal_words. Qed.
+Print Assumptions C05_words_neither_glued_nor_split.
+
+Theorem C05_no_line_invented : forall is_space tokens r,
+  Forall E0 tokens ->
+  remove_pure_action_lines is_space tokens = Ok r ->
+  clos_refl_trans _ (drop_blank is_space) (lines (flatt tokens)) (lines (flatt r)) /\
+  filter (solid_line is_space) (lines (flatt r))
+    = filter (solid_line is_space) (lines (flatt tokens)) /\
+  (length (lines (flatt r)) <= length (lines (flatt tokens)))%nat.
+Proof. exact rpal_solid_lines. Qed.
+Print Assumptions C05_no_line_invented.
+
+(* the notions, on an example: two lines emptied by labels go, the words and
+   the blank line of the source stay *)
+Example C05_words_lines_example :
+  let toks := [TextT 0 [97; 32; 98]%N; SpaceT 3 [10]%N; ActionT 4; SpaceT 9 [32; 10]%N;
+               ActionT 11; SpaceT 15 [10]%N; TextT 16 [99]%N;
+               mk KPar 17 [10; 10]%N false; TextT 19 [100]%N] in
+  words py_isspace (flatt toks) = [[97]; [98]; [99]; [100]]%N /\
+  lines (flatt toks) = [[97; 32; 98]; [32]; []; [99]; []; [100]]%N /\
+  match remove_pure_action_lines py_isspace toks with
+  | Ok r => Some (lines (flatt r)) | _ => None end
+  = Some [[97; 32; 98]; [99]; []; [100]]%N.
+Proof. vm_compute. repeat split. Qed.
 
 (* a line emptied by a label goes, the blank line of the source stays *)
 Example C05_nonvacuous :
